@@ -33,6 +33,10 @@ func timeRels(p *Path) []timeRel {
 			continue
 		}
 		args := callArgs(&call.Call)
+		if hr := helperTimeRels(call, v); hr != nil {
+			out = append(out, hr...)
+			continue
+		}
 		if len(args) != 2 {
 			continue
 		}
@@ -57,6 +61,86 @@ func timeRels(p *Path) []timeRel {
 		}
 	}
 	return out
+}
+
+// helperTimeRels inlines a predicate helper: a module function of one basic block that
+// returns (possibly negated) t1.Before(t2) / After / Equal where t1, t2 are its
+// parameters or fields of them. The atoms are expressed over the caller's arguments.
+func helperTimeRels(call *ssa.Call, val bool) []timeRel {
+	fn := staticCallee(&call.Call)
+	if fn == nil || !InModule(fn) || len(fn.Blocks) != 1 {
+		return nil
+	}
+	ret, ok := fn.Blocks[0].Instrs[len(fn.Blocks[0].Instrs)-1].(*ssa.Return)
+	if !ok || len(ret.Results) != 1 {
+		return nil
+	}
+	r := ret.Results[0]
+	for {
+		u, ok := r.(*ssa.UnOp)
+		if !ok || u.Op != token.NOT {
+			break
+		}
+		val = !val
+		r = u.X
+	}
+	inner, ok := r.(*ssa.Call)
+	if !ok {
+		return nil
+	}
+	id := calleeID(inner)
+	if id != "(time.Time).Before" && id != "(time.Time).After" && id != "(time.Time).Equal" {
+		return nil
+	}
+	cargs := callArgs(&call.Call)
+	var tr func(v ssa.Value, d int) ssa.Value
+	tr = func(v ssa.Value, d int) ssa.Value {
+		if d > 4 {
+			return nil
+		}
+		v = strip(v)
+		if k := paramIndex(fn, v); k >= 0 && k < len(cargs) {
+			return cargs[k]
+		}
+		switch x := v.(type) {
+		case *ssa.UnOp:
+			if x.Op == token.MUL {
+				return tr(x.X, d+1)
+			}
+		case *ssa.FieldAddr:
+			if b := tr(x.X, d+1); b != nil {
+				return &synthField{b, fieldOf(x.X.Type(), x.Field)}
+			}
+		case *ssa.Field:
+			if b := tr(x.X, d+1); b != nil {
+				return &synthField{b, fieldOf(x.X.Type(), x.Field)}
+			}
+		case *ssa.Alloc:
+			if s := singleStore(x); s != nil {
+				return tr(s, d+1)
+			}
+		}
+		return nil
+	}
+	ia := callArgs(&inner.Call)
+	if len(ia) != 2 {
+		return nil
+	}
+	a, b := tr(ia[0], 0), tr(ia[1], 0)
+	if a == nil || b == nil {
+		return nil
+	}
+	switch id {
+	case "(time.Time).Before":
+		return []timeRel{{val, a, b}}
+	case "(time.Time).After":
+		return []timeRel{{val, b, a}}
+	default:
+		if val {
+			return []timeRel{{false, a, b}, {false, b, a}}
+		}
+	}
+	return nil
 }
 
 // isNowValue: v is the result of time.Now() or thunks.TimeNow().
